@@ -381,3 +381,65 @@ func refTo5(b []byte, pad byte) []byte {
 	}
 	return out
 }
+
+// refCashStringConst: like refCashString but the remainder of the whole word is the constant x
+// instead of the prescribed one (input builder for "wrong final constant" strings).
+func refCashStringConst(prefix string, syms []byte, x uint64) string {
+	var v []byte
+	for i := 0; i < len(prefix); i++ {
+		v = append(v, prefix[i]&0x1f)
+	}
+	v = append(v, 0)
+	v = append(v, syms...)
+	v = append(v, 0, 0, 0, 0, 0, 0, 0, 0)
+	mod := refPolyMod(v) ^ x
+	var sb strings.Builder
+	for _, s := range syms {
+		sb.WriteByte(b32alpha[s])
+	}
+	for i := 0; i < 8; i++ {
+		sb.WriteByte(b32alpha[(mod>>uint(5*(7-i)))&0x1f])
+	}
+	return sb.String()
+}
+
+func refBech32Polymod(values []int) int {
+	gen := []int{0x3b6a57b2, 0x26508e6d, 0x1ea119fa, 0x3d4233dd, 0x2a1462b3}
+	chk := 1
+	for _, v := range values {
+		b := chk >> 25
+		chk = (chk&0x1ffffff)<<5 ^ v
+		for i := 0; i < 5; i++ {
+			if (b>>uint(i))&1 == 1 {
+				chk ^= gen[i]
+			}
+		}
+	}
+	return chk
+}
+
+// refBech32Const builds hrp1data+checksum where the final constant is x (1 = BIP173, 0x2bc830a3 = bech32m).
+func refBech32Const(hrp string, data []byte, x int) string {
+	var v []int
+	for i := 0; i < len(hrp); i++ {
+		v = append(v, int(hrp[i]>>5))
+	}
+	v = append(v, 0)
+	for i := 0; i < len(hrp); i++ {
+		v = append(v, int(hrp[i]&31))
+	}
+	for _, d := range data {
+		v = append(v, int(d))
+	}
+	v = append(v, 0, 0, 0, 0, 0, 0)
+	pm := refBech32Polymod(v) ^ x
+	var sb strings.Builder
+	sb.WriteString(hrp + "1")
+	for _, d := range data {
+		sb.WriteByte(b32alpha[d])
+	}
+	for i := 0; i < 6; i++ {
+		sb.WriteByte(b32alpha[(pm>>uint(5*(5-i)))&31])
+	}
+	return sb.String()
+}
